@@ -48,7 +48,7 @@ add("C10", "model_checking",
     "trusted: reexport.rs",
     "bounded-exhaustive enumeration of call histories with a round-trip oracle (explicit-state)", "DESIGN.md §5 C10", "E-ENUM")
 add("C11", "model_checking",
-    "Every sequence of 1..=5 (thorough 6) packets over the 18-packet menu (17 self-delimiting packets and V9 data for an absent id; a sequence whose only failing packet is its last one is in the domain; header fields - source id, observation domain, sequence number, clocks - varying with the position) (all four versions, templates defined by early packets and needed by later ones, IPFIX data for an absent id) is delivered under ALL 2^(n-1) partitions into consecutive parse_bytes calls on a fresh parser; concatenated results and final cache snapshot must equal one-packet-per-call delivery. Every sequence of <=4 packets over an 8-packet large-cache menu (1 100 definitions per packet) likewise. Maximal chains up to the datagram limit are compared all-in-one vs one-per-call.",
+    "Every sequence of 1..=5 (thorough 6) packets over the 18-packet menu (17 self-delimiting packets and V9 data for an absent id; a sequence whose only failing packet is its last one is in the domain; header fields - source id, observation domain, sequence number, clocks - varying with the position) (all four versions, templates defined by early packets and needed by later ones, IPFIX data for an absent id) is delivered under ALL 2^(n-1) partitions into consecutive parse_bytes calls on a fresh parser; concatenated results and final cache snapshot must equal one-packet-per-call delivery. Every sequence of <=4 packets over a 10-packet large-cache menu (1 100 definitions per packet; an options template empty on both sides) likewise. Maximal chains up to the datagram limit are compared all-in-one vs one-per-call.",
     "sequences whose one-per-call run contains an error element are outside the property's domain (counted, not judged); trusted: c11::judge",
     "bounded-exhaustive enumeration of sequences x all partitions (stateless exploration of real code, differential oracle)", "DESIGN.md §5 C11", "E-ENUM")
 add("C12", "model_checking",
